@@ -287,3 +287,95 @@ pub fn run(ctx: &mut Ctx) -> R {
     }
     Ok(())
 }
+
+/// C14 at scale: an interrupted encode with more than 65536 complete frames on the medium (whatever counts
+/// frames in a narrow type passes its limit before the crash). A few crash points only: everything
+/// written, inside the last frame, and on / next to the frame boundaries around number 65536.
+pub fn run_big(ctx: &mut Ctx) -> R {
+    use flac_codec::encode::{FlacSampleWriter, Options};
+    let ch = ctx.ch.clone();
+    let frames: usize = *ch.pick("c14big.frames", &[65_600usize, 70_000, 131_200, 65_537]);
+    let declared = ch.draw("c14big.declared", 3) == 0;
+    let seek = ch.draw("c14big.seek", 3) == 0;
+    ctx.describe(|| format!("interrupted encode of {frames} frames of 16 samples, mono 8-bit, length {}, seek table {}", if declared { "declared" } else { "undeclared" }, if seek { "every second" } else { "off" }));
+    // every frame holds one value (a CONSTANT subframe) that names the frame
+    let pcm: Vec<i32> = (0..frames * 16).map(|i| ((i / 16) % 200) as i32 - 100).collect();
+    let mut opts = Options::default().block_size(16).unwrap().max_lpc_order(None).unwrap();
+    opts = if seek { opts.seektable_seconds(1) } else { opts.no_seektable() };
+    let mut cur = std::io::Cursor::new(Vec::with_capacity(2 << 20));
+    {
+        let mut w = match FlacSampleWriter::new(&mut cur, opts, 8000, 8, 1, declared.then_some(pcm.len() as u64)) {
+            Ok(w) => w,
+            Err(e) => {
+                ctx.skip_foreign(format!("constructor failed: {e:?}"));
+                return Ok(());
+            }
+        };
+        if let Err(e) = w.write(&pcm) {
+            std::mem::forget(w);
+            ctx.skip_foreign(format!("encode failed before the crash point: {e:?}"));
+            return Ok(());
+        }
+        // the process dies here: nothing is finalized
+        std::mem::forget(w);
+    }
+    let full = cur.into_inner();
+    probe("c14_more_than_65536_frames");
+    let m = match refflac::parse_meta(&full, 0) {
+        Ok(m) => m,
+        Err(e) => {
+            ctx.skip_foreign(format!("provisional metadata unparseable: {e:?}"));
+            return Ok(());
+        }
+    };
+    // frame boundaries from refflac, frame by frame (the provisional STREAMINFO is only used for the depth)
+    let mut ends: Vec<usize> = Vec::with_capacity(frames);
+    let mut pos = m.audio_start;
+    while pos < full.len() {
+        match refflac::parse_frame(&full, pos, Some(&m.si)) {
+            Ok(f) => {
+                pos = f.end;
+                ends.push(pos);
+            }
+            Err(_) => break,
+        }
+    }
+    if ends.len() != frames {
+        ctx.skip_foreign(format!("refflac finds {} of {frames} frames on the medium — C02's matter", ends.len()));
+        return Ok(());
+    }
+    let cuts: Vec<(usize, usize)> = vec![
+        (full.len(), frames),
+        (full.len() - 3, frames - 1),
+        (ends[65_535], 65_536),
+        (ends[65_536], 65_537),
+        (ends[65_536] - 1, 65_536),
+        (ends[65_534] + 2, 65_535),
+    ];
+    let rot = ch.draw("c14big.rot", 10) as usize;
+    for (ci, (cut, complete)) in cuts.into_iter().enumerate() {
+        let want = &pcm[..complete * 16];
+        let rk = RKINDS[(ci + rot) % RKINDS.len()];
+        let pat = Choices::generate(mix(ch.raw("c14big.pattern"), ci as u64));
+        let prefix = full[..cut].to_vec();
+        let res = catch_unwind(AssertUnwindSafe(|| decode_all(std::io::Cursor::new(prefix), rk, &pat, 16)));
+        match res {
+            Err(_) => {
+                let (loc, msg) = take_panic().unwrap_or_default();
+                let v = crate::classify_panic(&loc, &msg);
+                return viol(v.class, format!("crash after {cut} bytes ({complete} complete frames): reader {rk:?} panicked: {msg}"));
+            }
+            Ok(r) => {
+                ctx.eval_fp(mix(cut as u64, r.samples.len() as u64), true);
+                if r.samples != want {
+                    let class = if r.samples.len() < want.len() && want.starts_with(&r.samples) { "crash-prefix-undecodable" } else { "crash-prefix-wrong-samples" };
+                    return viol(
+                        class,
+                        format!("crash after {cut} of {} bytes: {complete} completely written frames = {} samples, reader {rk:?} delivered {} (end: {:?})", full.len(), want.len(), r.samples.len(), r.err),
+                    );
+                }
+            }
+        }
+    }
+    Ok(())
+}
